@@ -107,3 +107,71 @@ func VerifC05_PostFromCallback() {
 	}
 	vf.Reach("end")
 }
+
+// C05(b,c) — Post from OTHER goroutines, concurrently with the loop. The engine runs the posters
+// as logical threads and explores the interleavings (bounded number of preemptive context
+// switches, taken at the mutex, eventfd and epoll operations); every access of the code under
+// test to shared memory is checked for happens-before ordering (data races).
+func VerifC05_Concurrent() {
+	vkernel.Reset(vkernel.Config{Batch: 1, MaxWaits: 8})
+	ioc := MustIO()
+	vf.MaxSwitches(vf.Bound("context-switches", 3, 4))
+	vf.RaceCheck(true)
+	nPosters := vf.Bound("posters", 1, 2)
+	perPoster := vf.Bound("posts-per-poster", 2, 2)
+	var ran [2][2]int
+	var order [4]int
+	nran, posted := 0, 0
+	wfd := internal.VerifWakerFd(ioc.poller)
+	for i := 0; i < nPosters; i++ {
+		id := i
+		vf.Go(func() {
+			for s := 0; s < perPoster; s++ {
+				seq := s
+				err := ioc.Post(func() {
+					ran[id][seq]++
+					vf.Assert("handler-runs-on-the-loop-thread", vf.ThreadID() == 0)
+					vf.Assert("handler-runs-once", ran[id][seq] == 1)
+					order[nran] = id*2 + seq
+					nran++
+				})
+				vf.Assert("post-ok", err == nil)
+				posted++
+			}
+		})
+	}
+	vf.Unwind(16)
+	// the loop thread polls while the posters run
+	for c := 0; c < 2; c++ {
+		ioc.PollOne()
+	}
+	vf.Join()
+	vf.Assert("all-posts-returned", posted == nPosters*perPoster)
+	// Quiescent point: no thread is inside Post or dispatch. A handler that is still queued must be
+	// announced on the eventfd, otherwise a loop blocked in epoll_wait would sleep for ever.
+	vf.Assert("pending-equals-posts-not-run", ioc.Pending() == int64(posted-nran))
+	vf.Assert("posted-equals-posts-not-run", ioc.Posted() == posted-nran)
+	if posted-nran > 0 {
+		vf.Reach("opt:handlers-still-queued")
+		vf.Assert("no-lost-wake-up", vkernel.K.FDs[wfd].Counter > 0)
+	}
+	// the loop keeps running: everything posted is executed exactly once, per poster in posting order
+	vkernel.K.Cfg.Eager = true
+	for c := 0; c < 3; c++ {
+		ioc.PollOne()
+	}
+	for i := 0; i < nPosters; i++ {
+		for s := 0; s < perPoster; s++ {
+			vf.Assert("every-posted-handler-ran-exactly-once", ran[i][s] == 1)
+		}
+	}
+	for a := 0; a < nran; a++ {
+		for b := a + 1; b < nran; b++ {
+			if order[a]/2 == order[b]/2 {
+				vf.Assert("per-poster-order-preserved", order[a] < order[b])
+			}
+		}
+	}
+	vf.Assert("counters-back-to-zero", vf.All(ioc.Pending() == 0, ioc.Posted() == 0))
+	vf.Reach("end")
+}
